@@ -47,15 +47,19 @@ func peerMain() {
 	release := make(chan struct{}, 16)
 	go func() { // the only writer of stdout
 		w := bufio.NewWriterSize(os.Stdout, 1<<16)
+		closed := false
 		for it := range out {
 			switch {
+			case closed:
 			case it.barrier:
 				w.Flush()
 				<-release
 			case it.exit:
+				// the output ends here (cleanly or inside a value); the process stays until its stdin ends, so that what the
+				// client sees is the end of the stream and not the side effects of a process exit (that is C08's subject)
 				w.Flush()
 				os.Stdout.Close()
-				os.Exit(0)
+				closed = true
 			default:
 				w.Write(it.b)
 				w.Flush()
